@@ -62,11 +62,38 @@ def check(ifs, classes, tag):
     return bad, n
 
 
+def cold_check(ifs, classes):
+    """the FIRST question ever asked about an instance of each class is a super query on one of its base classes (a
+    cooperative method adapting super()): nothing has computed the class's own specification yet, while the base classes
+    (visited earlier) have answered super queries of their own"""
+    bad = []
+    n = 0
+    names = lambda ids_: sorted(i.__name__ for i in ifs + [Interface] if id(i) in ids_)
+    for T in classes:
+        ob = T()
+        for C in list(T.__mro__[1:-1]) + [T]:
+            n += 1
+            rest = T.__mro__[T.__mro__.index(C) + 1:]
+            exp = {id(Interface)}
+            for c in rest:
+                exp |= {id(i) for i in implementedBy(c).flattened()}
+            got = {id(i) for i in providedBy(super(C, ob)).flattened()}
+            if got != exp:
+                bad.append(('providedBy-cold', 'first query about an instance of %s: providedBy(super(%s, ob)) reports %s, the classes after it in the MRO implement %s' % (
+                    T.__name__, C.__name__, names(got), names(exp))))
+                return bad, n
+    return bad, n
+
+
 def play(spec):
     ifs, classes = build(spec)
     if not classes:
         return [], 0
-    bad, n = check(ifs, classes, 'fresh')
+    bad, n = cold_check(ifs, classes)
+    if bad:
+        return bad, n
+    bad, n2 = check(ifs, classes, 'fresh')
+    n += n2
     for si, (ci, ii, only) in enumerate(spec[2]):
         if bad:
             break
@@ -99,7 +126,7 @@ def replay(spec):
 
 def run(ctx):
     ctx.rule = ('random class DAGs (<=5 classes, <=2 bases, undeclared mixins, *only* declarations), every super(C, ob) along '
-                'every MRO, providedBy/implementedBy/I.providedBy and registry adaptation against the union over the remaining '
+                'every MRO (first of all as the very first question asked about an instance of each class), providedBy/implementedBy/I.providedBy and registry adaptation against the union over the remaining '
                 'MRO computed independently, repeated after <=3 later declaration changes (cache warm); distinct = (DAG, history)')
     ctx.bounds = 'classes<=5, history<=3'
     trials = 250 if ctx.tier == 'quick' else 4000
